@@ -266,6 +266,18 @@ Qed.
 Lemma zmax_opt_zmaxl l : l <> [] -> (forall x, In x l -> 0 <= x) -> zmax_opt l = Some (zmaxl l).
 Proof. intros Hn Hp. apply zmax_opt_iff. split; [now apply zmaxl_in|apply zmaxl_ge]. Qed.
 
+Lemma zmaxl_app a b : zmaxl (a ++ b) = Z.max (zmaxl a) (zmaxl b).
+Proof.
+  induction a as [|x a IH]; cbn [app zmaxl fold_right].
+  - fold (zmaxl b). pose proof (zmaxl_nonneg b). lia.
+  - fold (zmaxl (a ++ b)). fold (zmaxl a). rewrite IH. lia.
+Qed.
+Lemma fold_left_max l : forall m, 0 <= m -> fold_left Z.max l m = Z.max m (zmaxl l).
+Proof.
+  induction l as [|x l IH]; intros m Hm; cbn [fold_left zmaxl fold_right]; [lia|].
+  fold (zmaxl l). rewrite IH by lia. lia.
+Qed.
+
 Section Offsets.
 Context {A V F : Type}.
 Notation probe := (probe A V F).
@@ -275,7 +287,7 @@ Notation tagged := (tagged A).
 (* generic offset: ids = p_clu or p_tmpl *)
 Definition goff (ids : probe -> list Z) (ps : list probe) (k : nat) : Z :=
   zsum (map (fun p => n_ids (ids p)) (firstn k ps)).
-Lemma coff_goff ps k : coff_spec ps k = goff (@p_clu A V F) ps k. Proof. reflexivity. Qed.
+Lemma coff_goff ps k : coff_spec ps k = goff (@clu_ids A V F) ps k. Proof. reflexivity. Qed.
 
 Lemma goff_0 ids ps : goff ids ps 0 = 0. Proof. reflexivity. Qed.
 Lemma goff_S ids p r j : goff ids (p :: r) (S j) = n_ids (ids p) + goff ids r j. Proof. reflexivity. Qed.
@@ -331,9 +343,21 @@ Proof.
   intros H p Hp. rewrite Forall_forall in H. pose proof (wf_ntmpl p (H p Hp)). pose proof (zmaxl_nonneg (p_tmpl p)). lia.
 Qed.
 
+(* the cluster count of a probe, as the code computes it, is the declarative one *)
+Lemma n_clu_of_spec (p : probe) : p_clu p <> [] -> (forall c, In c (p_clu p) -> 0 <= c) ->
+  n_clu_of p = Some (n_ids (clu_ids p)).
+Proof.
+  intros Nc Pc. unfold n_clu_of. rewrite (zmax_opt_zmaxl _ Nc Pc). f_equal.
+  rewrite fold_left_max by apply zmaxl_nonneg. unfold n_ids, clu_ids. rewrite zmaxl_app. reflexivity.
+Qed.
+Lemma zmaxl_clu_le (p : probe) : zmaxl (p_clu p) <= zmaxl (clu_ids p).
+Proof. unfold clu_ids. rewrite zmaxl_app. lia. Qed.
+Lemma clu_ids_ge (p : probe) c : In c (p_clu p) -> c <= zmaxl (clu_ids p).
+Proof. intros H. apply zmaxl_ge. unfold clu_ids. apply in_app_iff. now left. Qed.
+
 (* cluster_probes, declaratively *)
 Fixpoint cp_spec (i : Z) (ps : list probe) : list Z :=
-  match ps with [] => [] | p :: r => repeat i (Z.to_nat (n_ids (p_clu p))) ++ cp_spec (i + 1) r end.
+  match ps with [] => [] | p :: r => repeat i (Z.to_nat (n_ids (clu_ids p))) ++ cp_spec (i + 1) r end.
 
 Lemma wf_probe_len (p : probe) : wf_probe p -> wf_len p.
 Proof. intros (H1 & H2 & H3 & _). repeat split; assumption. Qed.
@@ -359,10 +383,9 @@ Proof.
   induction 1 as [|p r Hp Hr IH]; intros i coff toff.
   - exists []. cbn. repeat split; reflexivity.
   - destruct (wf_probe_ne p Hp) as [Nc Nt]. pose proof Hp as (L1 & L2 & L3 & _ & Pc & Pt & _).
-    cbn [sc_loop]. rewrite (zmax_opt_zmaxl _ Nc Pc).
-    fold (n_ids (p_clu p)).
-    replace (n_ids (p_clu p) <? 0) with false by (pose proof (n_ids_pos (p_clu p)); lia).
-    destruct (IH (i + 1) (coff + n_ids (p_clu p)) (toff + p_ntmpl p)) as (sh & -> & E1 & E2 & E3 & E4 & E5).
+    cbn [sc_loop]. rewrite (n_clu_of_spec _ Nc Pc).
+    replace (n_ids (clu_ids p) <? 0) with false by (pose proof (n_ids_pos (clu_ids p)); lia).
+    destruct (IH (i + 1) (coff + n_ids (clu_ids p)) (toff + p_ntmpl p)) as (sh & -> & E1 & E2 & E3 & E4 & E5).
     eexists. split; [reflexivity|]. cbn [map sh_coff sh_toff sh_sc sh_st sh_cp concat length].
     rewrite !map_seq_S, E1, E2, E5. rewrite coff_goff, toff_0, !goff_0.
     split; [f_equal; [lia|]; apply map_ext; intros j; rewrite !coff_goff, goff_S; lia|].
@@ -421,7 +444,7 @@ Lemma cp_spec_length i (ps : list probe) : Z.of_nat (length (cp_spec i ps)) = co
 Proof.
   revert i; induction ps as [|p r IH]; intros i; [reflexivity|].
   cbn [cp_spec length]. rewrite app_length, repeat_length, Nat2Z.inj_add, IH, !coff_goff, goff_S.
-  pose proof (n_ids_pos (p_clu p)). lia.
+  pose proof (n_ids_pos (clu_ids p)). lia.
 Qed.
 
 Lemma reorder_field {Y} (g : tagged -> Y) (R : list tagged) :
@@ -447,38 +470,34 @@ Proof.
   set (R := tagged_concat ps) in *.
   destruct (sc_loop_spec ps Hwf 0 0 0) as (sh & Hsh & S1 & S2 & S3 & S4 & S5).
   specialize (S3 0%nat). specialize (S4 0%nat). fold (tagged_concat ps) in S3, S4. fold R in S3, S4.
-  unfold merge. rewrite Hm. clear Hm.
-  unfold spike_order, concat_times. rewrite <- T1.
+  unfold merge, merge_core. rewrite Hm. clear Hm.
+  unfold concat_times. rewrite <- T1.
   rewrite (take_argsort (map (@t_time A) R) (map (@t_time A) R) eq_refl), reorder_field.
   rewrite !load_spike_arrays_spec by (rewrite <- ?T2, <- ?T3, ?S3, ?S4, !map_length; reflexivity).
   rewrite Hsh. rewrite !load_spike_arrays_spec by (rewrite ?S3, ?S4, !map_length; reflexivity).
   rewrite <- T2, S3, S4, !reorder_field.
   set (M := sorted_tagged R).
   set (clu := map (fun s : tagged => t_clu s + (0 + coff_spec ps (t_probe s - 0))) M).
-  assert (Hmax : zmax_opt clu = Some (coff_spec ps (length ps) - 1)).
-  { apply zmax_opt_iff. split.
-    - (* the largest id of the last probe *)
-      assert (Hlast : exists q, nth_error ps (length ps - 1) = Some q).
-      { rewrite Eps. cbn [length]. destruct (nth_error (p0 :: r0) (S (length r0) - 1)) eqn:E; [eauto|].
-        apply nth_error_None in E. cbn [length] in E. lia. }
-      destruct Hlast as (q & Hq). assert (Wq : wf_probe q).
-      { rewrite Forall_forall in Hwf. apply Hwf. eapply nth_error_In; exact Hq. }
-      destruct (wf_probe_ne q Wq) as [Nc _]. pose proof Wq as (_ & _ & _ & _ & Pc & _).
-      destruct (tagged_from_ex 0 ps _ q _ Hlen Hq (zmaxl_in _ Nc Pc)) as (s & Hs & E1 & E2).
-      unfold clu. apply in_map_iff. exists s. split.
-      + rewrite E1, E2, Nat.sub_0_r. cbn [Nat.add].
-        assert (Hn : length ps = S (length ps - 1)) by (rewrite Eps; cbn [length]; lia).
-        rewrite Hn at 2. rewrite !coff_goff, (goff_step _ _ _ _ Hq). unfold n_ids. lia.
-      + apply (Permutation_in _ (Permutation_sym (sorted_tagged_perm R))). exact Hs.
-    - intros y Hy. unfold clu in Hy. apply in_map_iff in Hy as (s & <- & Hs).
+  (* the final assert: the largest merged cluster id is below the length of cluster_probes *)
+  assert (Hmax : exists mx, zmax_opt clu = Some mx /\ mx + 1 <= coff_spec ps (length ps)).
+  { assert (Hb : forall y, In y clu -> y + 1 <= coff_spec ps (length ps)).
+    { intros y Hy. unfold clu in Hy. apply in_map_iff in Hy as (s & <- & Hs).
       apply (Permutation_in _ (sorted_tagged_perm R)) in Hs.
       destruct (tagged_from_in 0 ps s Hlen Hs) as (q & Hq & Hc & _). rewrite Nat.sub_0_r in *.
-      pose proof (zmaxl_ge _ _ Hc). pose proof (goff_step (@p_clu A V F) _ _ _ Hq) as G.
+      pose proof (clu_ids_ge _ _ Hc). pose proof (goff_step (@clu_ids A V F) _ _ _ Hq) as G.
       assert (t_probe s < length ps)%nat by (apply nth_error_Some; congruence).
-      pose proof (goff_mono (@p_clu A V F) ps (S (t_probe s)) (length ps) ltac:(lia)).
+      pose proof (goff_mono (@clu_ids A V F) ps (S (t_probe s)) (length ps) ltac:(lia)).
       rewrite !coff_goff. unfold n_ids in G. lia. }
-  rewrite Hmax, S5. pose proof (cp_spec_length 0 ps) as HL.
-  replace (coff_spec ps (length ps) - 1 + 1 =? Z.of_nat (length (cp_spec 0 ps))) with true by lia.
+    destruct clu as [|c0 cl] eqn:Ec.
+    - exfalso. unfold clu in Ec. apply map_eq_nil in Ec.
+      assert (Hp0 : wf_probe p0) by (rewrite Eps in Hwf; now inversion Hwf).
+      destruct (wf_probe_ne p0 Hp0) as [Nc _]. destruct (p_clu p0) as [|c0 cl0] eqn:E0; [contradiction|].
+      destruct (tagged_from_ex 0 ps 0 p0 c0 Hlen) as (s & Hs & _); [rewrite Eps; reflexivity|rewrite E0; now left|].
+      apply (Permutation_in _ (Permutation_sym (sorted_tagged_perm R))) in Hs. fold M in Hs. rewrite Ec in Hs. exact Hs.
+    - destruct (zmax_opt (c0 :: cl)) as [mx|] eqn:Em; [|discriminate].
+      exists mx. split; [reflexivity|]. apply zmax_opt_iff in Em as [Hin _]. apply Hb. exact Hin. }
+  destruct Hmax as (mx & -> & Hle). rewrite S5. pose proof (cp_spec_length 0 ps) as HL.
+  replace (mx + 1 <=? Z.of_nat (length (cp_spec 0 ps))) with true by lia.
   eexists. split; [reflexivity|]. cbn [m_times m_amps m_tmpl m_clu m_coffs m_toffs m_cprobes m_meta].
   assert (C1 : map sh_coff sh = map (coff_spec ps) (seq 0 (length ps))) by (rewrite S1; apply map_ext; intros; lia).
   assert (C2 : map sh_toff sh = map (toff_spec ps) (seq 0 (length ps))) by (rewrite S2; apply map_ext; intros; lia).
@@ -553,28 +572,28 @@ Proof.
 Qed.
 
 Lemma cp_spec_nth (ps : list probe) : forall i k p c, nth_error ps k = Some p ->
-  coff_spec ps k <= c < coff_spec ps k + n_ids (p_clu p) ->
+  coff_spec ps k <= c < coff_spec ps k + n_ids (clu_ids p) ->
   nth_error (cp_spec i ps) (Z.to_nat c) = Some (i + Z.of_nat k).
 Proof.
   induction ps as [|q r IH]; intros i k p c Hk Hc; [destruct k; discriminate|].
-  pose proof (n_ids_pos (p_clu q)) as Hq. cbn [cp_spec]. destruct k as [|k]; cbn [nth_error] in Hk.
+  pose proof (n_ids_pos (clu_ids q)) as Hq. cbn [cp_spec]. destruct k as [|k]; cbn [nth_error] in Hk.
   - injection Hk as ->. rewrite coff_goff, goff_0 in Hc. rewrite nth_error_app1 by (rewrite repeat_length; lia).
     rewrite (nth_error_nth' _ i) by (rewrite repeat_length; lia). rewrite nth_repeat. f_equal. lia.
   - rewrite coff_goff, goff_S, <- coff_goff in Hc.
     assert (0 <= coff_spec r k).
-    { rewrite coff_goff. pose proof (goff_mono (@p_clu A V F) r 0 k (Nat.le_0_l _)) as G. rewrite goff_0 in G. exact G. }
+    { rewrite coff_goff. pose proof (goff_mono (@clu_ids A V F) r 0 k (Nat.le_0_l _)) as G. rewrite goff_0 in G. exact G. }
     rewrite nth_error_app2 by (rewrite repeat_length; lia).
-    rewrite repeat_length. replace (Z.to_nat c - Z.to_nat (n_ids (p_clu q)))%nat with (Z.to_nat (c - n_ids (p_clu q))) by lia.
-    rewrite (IH (i + 1) k p (c - n_ids (p_clu q)) Hk) by lia. f_equal. lia.
+    rewrite repeat_length. replace (Z.to_nat c - Z.to_nat (n_ids (clu_ids q)))%nat with (Z.to_nat (c - n_ids (clu_ids q))) by lia.
+    rewrite (IH (i + 1) k p (c - n_ids (clu_ids q)) Hk) by lia. f_equal. lia.
 Qed.
 
 Lemma cp_spec_inv (ps : list probe) : forall i c k', nth_error (cp_spec i ps) c = Some k' ->
   exists k p, k' = i + Z.of_nat k /\ nth_error ps k = Some p /\
-              coff_spec ps k <= Z.of_nat c < coff_spec ps k + n_ids (p_clu p).
+              coff_spec ps k <= Z.of_nat c < coff_spec ps k + n_ids (clu_ids p).
 Proof.
   induction ps as [|q r IH]; intros i c k' H; [destruct c; discriminate|].
-  pose proof (n_ids_pos (p_clu q)) as Hq. cbn [cp_spec] in H.
-  destruct (lt_dec c (Z.to_nat (n_ids (p_clu q)))) as [L|L].
+  pose proof (n_ids_pos (clu_ids q)) as Hq. cbn [cp_spec] in H.
+  destruct (lt_dec c (Z.to_nat (n_ids (clu_ids q)))) as [L|L].
   - rewrite nth_error_app1 in H by (rewrite repeat_length; lia).
     apply nth_error_In, repeat_spec in H. exists 0%nat, q. rewrite coff_goff, goff_0. cbn [nth_error].
     split; [lia|]. split; [reflexivity|lia].
@@ -646,6 +665,7 @@ Qed.
 Theorem thm_disjoint (ps : list probe) : Forall wf_probe ps ->
   forall j k pj pk, (j < k)%nat -> nth_error ps j = Some pj -> nth_error ps k = Some pk ->
   (coff_spec ps j + zmaxl (p_clu pj) < coff_spec ps k /\
+   coff_spec ps j + n_ids (clu_ids pj) <= coff_spec ps k /\
    (forall c, In c (p_clu pj) -> coff_spec ps j <= c + coff_spec ps j <= coff_spec ps j + zmaxl (p_clu pj)) /\
    (forall c, In c (p_clu pk) -> coff_spec ps k <= c + coff_spec ps k)) /\
   (toff_spec ps j + zmaxl (p_tmpl pj) < toff_spec ps k /\
@@ -657,11 +677,13 @@ Proof.
   pose proof (Hwf _ (nth_error_In _ _ Hj)) as (_ & _ & _ & _ & Pcj & Ptj & _).
   pose proof (Hwf _ (nth_error_In _ _ Hk)) as (_ & _ & _ & _ & Pck & Ptk & _).
   pose proof (wf_ntmpl pj (Hwf _ (nth_error_In _ _ Hj))) as Nj.
-  destruct (goff_disjoint (@p_clu A V F) ps j k pj pk Hlt Hj Hk Pck) as (D1 & D2 & D3).
+  pose proof (goff_step (@clu_ids A V F) ps j pj Hj) as Gc.
+  pose proof (goff_mono (@clu_ids A V F) ps (S j) k ltac:(lia)) as Mc.
+  pose proof (zmaxl_clu_le pj) as Lj. unfold n_ids in *.
   pose proof (toff_step ps j pj Hj) as G. pose proof (toff_mono ps Hnn (S j) k ltac:(lia)) as M.
-  rewrite !coff_goff. split; [split; [assumption|]; split; intros c Hc|].
-  - specialize (Pcj c Hc). specialize (D2 c Hc). lia.
-  - specialize (D3 c Hc). lia.
+  rewrite !coff_goff. split; [split; [lia|]; split; [lia|]; split; intros c Hc|].
+  - specialize (Pcj c Hc). pose proof (zmaxl_ge _ _ Hc). lia.
+  - specialize (Pck c Hc). lia.
   - split; [lia|]. split; [lia|]. split; intros c Hc.
     + specialize (Ptj c Hc). pose proof (zmaxl_ge _ _ Hc). lia.
     + specialize (Ptk c Hc). lia.
@@ -680,19 +702,19 @@ Proof.
   destruct (tagged_from_in 0 ps s2 Hlen H2) as (p2 & N2 & C2 & T2 & _).
   rewrite Nat.sub_0_r in *.
   destruct (lt_eq_lt_dec (t_probe s1) (t_probe s2)) as [[L|E]|L].
-  - destruct (thm_disjoint ps Hwf _ _ _ _ L N1 N2) as ((D1 & D2 & D3) & (E1 & _ & E2 & E3)).
+  - destruct (thm_disjoint ps Hwf _ _ _ _ L N1 N2) as ((D1 & _ & D2 & D3) & (E1 & _ & E2 & E3)).
     specialize (D2 _ C1). specialize (D3 _ C2). specialize (E2 _ T1). specialize (E3 _ T2). split; intros; lia.
   - rewrite E. split; intros; split; try reflexivity; lia.
-  - destruct (thm_disjoint ps Hwf _ _ _ _ L N2 N1) as ((D1 & D2 & D3) & (E1 & _ & E2 & E3)).
+  - destruct (thm_disjoint ps Hwf _ _ _ _ L N2 N1) as ((D1 & _ & D2 & D3) & (E1 & _ & E2 & E3)).
     specialize (D2 _ C2). specialize (D3 _ C1). specialize (E2 _ T2). specialize (E3 _ T1). split; intros; lia.
 Qed.
 
 Theorem thm_cluster_probes (ps : list probe) : wf ps ->
   exists m, merge ps = Some m /\ Z.of_nat (length (m_cprobes m)) = coff_spec ps (length ps) /\
-    (forall k p c, nth_error ps k = Some p -> 0 <= c <= zmaxl (p_clu p) ->
+    (forall k p c, nth_error ps k = Some p -> 0 <= c <= zmaxl (clu_ids p) ->
                    nth_error (m_cprobes m) (Z.to_nat (c + coff_spec ps k)) = Some (Z.of_nat k)) /\
     (forall c k', nth_error (m_cprobes m) c = Some k' ->
-       exists k p, k' = Z.of_nat k /\ nth_error ps k = Some p /\ 0 <= Z.of_nat c - coff_spec ps k <= zmaxl (p_clu p)).
+       exists k p, k' = Z.of_nat k /\ nth_error ps k = Some p /\ 0 <= Z.of_nat c - coff_spec ps k <= zmaxl (clu_ids p)).
 Proof.
   intros H. destruct (merge_spec ps H) as (m & Hm & _ & _ & _ & C & _). exists m. rewrite C.
   split; [exact Hm|]. split; [apply cp_spec_length|]. split.
@@ -842,7 +864,15 @@ Lemma pairs_from_cons k0 p r : pairs_from k0 (p :: r) = (p, coff_spec ps k0) :: 
 Proof. reflexivity. Qed.
 
 Hypothesis Hwf : Forall wf_probe ps.
-Hypothesis Hrange : meta_in_range f ps.
+Hypothesis Hf : (f < n_meta_files)%nat.
+Hypothesis Hrange : meta_nonneg f ps.
+
+(* a row of one of the probe's metadata files names one of the probe's cluster ids *)
+Lemma meta_row_id (p : probe) mt kv : meta_of f p = Some mt -> In kv (mt_rows mt) -> fst kv <= zmaxl (clu_ids p).
+Proof.
+  intros Hm Hkv. apply zmaxl_ge. unfold clu_ids. apply in_app_iff. right. unfold meta_ids. apply in_flat_map.
+  exists f. split; [apply in_seq; lia|]. unfold meta_of in Hm. rewrite Hm. now apply in_map.
+Qed.
 
 Lemma no_hit (r : list probe) : forall k1 c, (forall p, In p r -> In p ps) -> c < coff_spec ps k1 ->
   last_hit (pairs_from k1 r) c = None.
@@ -852,7 +882,7 @@ Proof.
   rewrite IH; [|intros q Hq; apply Hin; now right|].
   - destruct (meta_of f p) as [mt|] eqn:E; [|reflexivity]. apply find_last_none. intros kv Hkv.
     pose proof (Hrange p mt kv (Hin p (or_introl eq_refl)) E Hkv). lia.
-  - pose proof (goff_mono (@p_clu A V F) ps k1 (S k1) ltac:(lia)). rewrite !coff_goff in *. lia.
+  - pose proof (goff_mono (@clu_ids A V F) ps k1 (S k1) ltac:(lia)). rewrite !coff_goff in *. lia.
 Qed.
 
 Lemma hit_forward (ps' : list probe) : forall k0,
@@ -864,11 +894,11 @@ Proof.
   rewrite pairs_from_cons. cbn [last_hit]. destruct k as [|k]; cbn [nth_error] in Hk.
   - injection Hk as ->. rewrite Nat.add_0_r.
     pose proof (Hsub 0%nat p eq_refl) as Hp. rewrite Nat.add_0_r in Hp.
-    pose proof (Hrange p mt (id, v) (nth_error_In _ _ Hp) Hm (find_last_in _ _ _ Hv)) as Hr. cbn [fst] in Hr.
+    pose proof (meta_row_id p mt (id, v) Hm (find_last_in _ _ _ Hv)) as Hr. cbn [fst] in Hr.
     rewrite no_hit.
     + rewrite Hm. replace (id + coff_spec ps k0 - coff_spec ps k0) with id by lia. exact Hv.
     + intros q Hq. apply In_nth_error in Hq as (j & Hj). eapply nth_error_In. apply (Hsub (S j)). exact Hj.
-    + pose proof (goff_step (@p_clu A V F) ps k0 p Hp) as G. rewrite !coff_goff. unfold n_ids in G. lia.
+    + pose proof (goff_step (@clu_ids A V F) ps k0 p Hp) as G. rewrite !coff_goff. unfold n_ids in G. lia.
   - replace (k0 + S k)%nat with (S k0 + k)%nat by lia.
     assert (Hsub' : forall j p', nth_error r j = Some p' -> nth_error ps (S k0 + j) = Some p').
     { intros j p' Hj. replace (S k0 + j)%nat with (k0 + S j)%nat by lia. apply Hsub. exact Hj. }
@@ -952,14 +982,14 @@ Definition Meta_out (f : nat) (ps : list probe) (out : option (metatab V F)) : P
 
 Theorem thm_metadata_merge (ps : list probe) : wf ps ->
   exists m, merge ps = Some m /\ length (m_meta m) = n_meta_files /\
-    forall f, (f < n_meta_files)%nat -> meta_in_range f ps -> Meta_out f ps (nth f (m_meta m) None).
+    forall f, (f < n_meta_files)%nat -> meta_nonneg f ps -> Meta_out f ps (nth f (m_meta m) None).
 Proof.
   intros H. destruct (merge_spec ps H) as (m & Hm & _ & _ & _ & _ & E). exists m. split; [exact Hm|].
   rewrite E. split; [reflexivity|]. intros f Hf Hr.
   assert (G : nth f (map (fun f0 => meta_file f0 ps (map (coff_spec ps) (seq 0 (length ps)))) (seq 0 n_meta_files)) None
               = meta_file f ps (map (coff_spec ps) (seq 0 (length ps)))).
   { unfold n_meta_files in *. destruct f as [|[|[|f]]]; try reflexivity. lia. }
-  rewrite G. exact (thm_metadata f ps Hr).
+  rewrite G. exact (thm_metadata f ps Hf Hr).
 Qed.
 End FinalMeta.
 
